@@ -80,7 +80,9 @@ READERS = {
 }
 READ_OPEN = re.compile(r"^(std::basic_ifstream<.*>::(basic_ifstream|open)|std::basic_fstream<.*>::(basic_fstream|open)|std::basic_filebuf<.*>::open|"
                        r"(::)?fopen|(::)?freopen|(::)?open|(::)?openat)$")
-RUNTIME_TARGETS = {"MFrontProfiling": "run-time profiler linked into generated behaviours (timers are its purpose); emits nothing at generation time"}
+RUNTIME_TARGETS = {"MFrontProfiling": "run-time profiler linked into generated behaviours (timers are its purpose); emits nothing at generation time",
+                   "MTestFileGenerator": "run-time helper linked into generated behaviours to write mtest files at failure (numbers its files with a "
+                                         "counter by design); emits nothing at generation time"}
 TOKENS = re.compile(r"(\bstat\s*\(|\blstat\s*\(|\baccess\s*\(|std::filesystem|opendir|readdir|\bifstream|\bfstream\b|\bfopen\s*\(|fileExistsAndIsReadable|\btime\s*\(|\bclock\s*\(|chrono|\brand\s*\(|random|getpid|getppid|tmpnam|mkstemp|tempnam|tmpfile|mkdtemp|getenv|"
                     r"unordered_|__DATE__|__TIME__|__TIMESTAMP__|this_thread|localtime|gmtime|gettimeofday|strftime|drand48)")
 MACROS = re.compile(r"\b(__DATE__|__TIME__|__TIMESTAMP__)\b")
@@ -166,6 +168,82 @@ def scan(rep, dumps, control=False):
     return nv
 
 
+ONCE_FLAGS = {
+    ("mfront::initDSLs", "init"): "once flag set under a mutex (DSL registration happens once per process, before any input is read)",
+}
+
+
+def static_state_rule(rep, units_all):
+    """R8: function-local statics of the generator do not carry state from one input to the next:
+     (a) the initialiser of a static local does not depend on a parameter, a local or a capture (it would be frozen at the
+         first call and reused for every later input of the same invocation);
+     (b) a static local of arithmetic type is not modified by its function (counters), except the listed once-flags.
+    Singletons, registries filled at start-up and option flags returned by reference are not concerned."""
+    PRE = re.compile(r"(?m)^\s{2,}static\s+(?!const\b|constexpr\b|_cast|assert)")
+    sel = [u for u in units_all if PRE.search(strip_literals(open(u, errors="replace").read()))]
+    rep.count("units declaring a mutable static local", len(sel))
+    d = cfgdump(sel, os.path.join(OUT, "C36", "statics"), funcs=r"^mfront::", root=os.path.join(REPO, "mfront"))
+    from cfg import load_functions
+    funcs = load_functions(d)
+    byid = {(f.unit, f.id): f for f in funcs}
+    n_ = 0
+    seen = set()
+    for f in funcs:
+        for s, n in sorted(f.stmts.items()):
+            if n["k"] != "DeclStmt":
+                continue
+            for dd in n["decls"]:
+                if not dd.get("static") or re.match(r"^const\b", dd.get("type") or ""):
+                    continue
+                key = (f.qname, dd.get("name"), f.short_loc(s))
+                if key in seen:
+                    continue
+                seen.add(key)
+                n_ += 1
+                dep = None
+                if "init" in dd:
+                    for x in f.walk(dd["init"]):
+                        m = f.stmts[x]
+                        if m["k"] == "DeclRefExpr" and m.get("local") and not m.get("globalStorage") and m.get("declId") != dd.get("declId"):
+                            dep = m.get("name")
+                        if m["k"] == "LambdaExpr":
+                            caps = [c.get("var") for c in (m.get("captures") or []) if c.get("var")]
+                            if caps:
+                                dep = caps[0]
+                            g = byid.get((f.unit, m.get("lambdaOp")))
+                            if g is not None and dep is None:
+                                outer = set(p_["declId"] for p_ in f.params)
+                                for y, q in g.stmts.items():
+                                    if q["k"] == "DeclRefExpr" and q.get("declId") in outer:
+                                        dep = q.get("name")
+                if dep is not None:
+                    rep.fail("STATIC-FROZEN@%s#%s" % (f.qname, dd.get("name")), "%s: the static local '%s' of %s is initialised from '%s': its value is "
+                             "fixed by the first call of the process and reused for every later input of the same invocation, so what is generated "
+                             "for an input depends on the inputs treated before it" % (rel(f.short_loc(s)), dd.get("name"), f.qname, dep))
+                    continue
+                ty = dd.get("type") or ""
+                if re.match(r"^(unsigned |signed )?(int|long|short|char|bool|std::size_t|unsigned|size_t|double|float)\b", ty):
+                    writes = []
+                    for g in [f] + [h for h in funcs if h.unit == f.unit and h.parent == f.id]:
+                        for y, q in g.stmts.items():
+                            tgt = None
+                            if q["k"] == "UnaryOperator" and q.get("op") in ("++", "--"):
+                                tgt = g.kids(y)[0]
+                            elif q["k"] in ("BinaryOperator", "CompoundAssignOperator") and q.get("op") in ("=", "+=", "-=", "*="):
+                                tgt = g.kids(y)[0]
+                            if tgt is not None:
+                                t_ = g.stmts.get(g.strip(tgt))
+                                if t_ is not None and t_["k"] == "DeclRefExpr" and t_.get("declId") == dd.get("declId"):
+                                    writes.append(g.short_loc(y))
+                    if writes and (f.qname, dd.get("name")) not in ONCE_FLAGS:
+                        rep.fail("STATIC-COUNTER@%s#%s" % (f.qname, dd.get("name")), "%s: %s modifies its static local '%s' (%s): state is carried from "
+                                 "one input to the next within an invocation" % (rel(writes[0]), f.qname, dd.get("name"), ty))
+                        continue
+                rep.ok("static local '%s' of %s carries no per-input state" % (dd.get("name"), f.qname), sample=False)
+    rep.count("mutable static locals inspected", n_)
+    rep.floor("mutable static locals inspected", 25)
+
+
 def run(tier):
     rep = Report("C36", tier, "other", RULE)
     allu = units_under("mfront/src")
@@ -203,6 +281,7 @@ def run(tier):
     rep.count("units parsed", len(sel))
     dumps = cfgdump(sel, os.path.join(OUT, "C36", "dump"), calls=True, root=os.path.join(REPO, "mfront"))
     scan(rep, dumps)
+    static_state_rule(rep, units)
     # positive control
     ctl = os.path.join(VERIF, "controls", "C36_control.cxx")
     dc = cfgdump([ctl], os.path.join(OUT, "C36", "ctl"), calls=True, flags_for=lambda u: (header_flags(), VERIF))
